@@ -45,7 +45,8 @@ class World(object):
         self.objs = {}
         for cont in ('sample', 'sample-nogain'):
             path = os.path.join(self.dir, cont + '.fcs')
-            fcsgen.write_sample(path, EVENTS, ['c1', 'c2', 'c3'], R, bits=16, pne=['4,1', '2.5,0', '0,0'],
+            fcsgen.write_sample(path, EVENTS, ['c1', 'c2', 'c3'], R, bits=16,
+                                pne=['4,1', '0,0' if cont == 'sample' else '2.5,0', '0,0'],
                                 png=[None, None, '4' if cont == 'sample' else None], pnv=['400', '500', '600'],
                                 pns=['A', 'B', 'C'])
             with warnings.catch_warnings():
@@ -55,7 +56,7 @@ class World(object):
         self.objs['array-float'] = np.array(EVENTS, dtype=np.float64)
         path = os.path.join(self.dir, 'double.fcs')
         fcsgen.write_sample(path, [[float(v) for v in r] for r in EVENTS], ['c1', 'c2', 'c3'], R, datatype='D',
-                            pne=['4,1', '2.5,0', '0,0'], png=[None, None, '4'], pnv=['400', '500', '600'], pns=['A', 'B', 'C'])
+                            pne=['4,1', '0,0', '0,0'], png=[None, None, '4'], pnv=['400', '500', '600'], pns=['A', 'B', 'C'])
         with warnings.catch_warnings():
             warnings.simplefilter('ignore')
             self.objs['sample-double'] = FlowCal.io.FCSData(path)
